@@ -198,6 +198,24 @@ def meta_effects(eff):
     return [e[1] for e in eff if e[0] == 'meta']
 
 
+ANNOUNCES = {'entry': 'state entered', 'exit': 'state exited', 'action': 'transition processed'}
+
+
+def announced_late(eff):
+    """Listeners hear of each thing when it happened: the entry code of a state, the exit code of a state, the
+    action of a transition is announced before the next piece of code of the statechart runs.  Returns a
+    description of the first piece of code that ran while an announcement was still owed, or None."""
+    owed = None
+    for e in eff:
+        if e[0] in ANNOUNCES:
+            if owed is not None:
+                return '%s ran before %r of %s was announced' % (e[:2], ANNOUNCES[owed[0]], owed[1])
+            owed = e
+        elif e[0] == 'meta' and owed is not None and e[1]['ev'] == ANNOUNCES[owed[0]]:
+            owed = None
+    return None
+
+
 def wf_json(j):
     """DESIGN.md §2 W1–W8 on the protocol form of a chart — an independent re-implementation of the
     Lean decision procedure `wfB` (lean/Sismic/Proofs/WFCheck.lean); the two are compared on every
